@@ -89,6 +89,9 @@ func c11sched(c *core.Ctx) {
 					return
 				}
 			}
+			if t.badStream() {
+				return
+			}
 			vsched.Logf("ok")
 		}})
 	}
